@@ -1,0 +1,58 @@
+//go:build verif
+
+package dkv
+
+import (
+	"reduction.dev/reduction/dkv/sst"
+	"reduction.dev/reduction/util/verifhook"
+)
+
+// VerifDBTuning lets the verification harness (/verif) shrink the sizes that
+// are otherwise hard-coded, so that rotation, flush and compaction happen at
+// simulation scale underneath an Operator. Zero fields leave the value alone.
+type VerifDBTuning struct {
+	MemTableSize                uint64
+	TargetFileSize              uint64
+	MaxWALSize                  uint64
+	L0TableNumCompactionTrigger int
+	MaxSizeAmplificationPercent int
+	SmallestLevelSize           int64
+	LevelSizeMultiplier         int
+}
+
+func verifTuneOptions(o *DBOptions) {
+	v, ok := verifhook.Tuning("dkv")
+	if !ok {
+		return
+	}
+	t := v.(VerifDBTuning)
+	if t.MemTableSize != 0 && o.MemTableSize == 0 {
+		o.MemTableSize = t.MemTableSize
+	}
+	if t.TargetFileSize != 0 && o.TargetFileSize == 0 {
+		o.TargetFileSize = t.TargetFileSize
+	}
+	if t.MaxWALSize != 0 && o.MaxWALSize == 0 {
+		o.MaxWALSize = t.MaxWALSize
+	}
+	if t.L0TableNumCompactionTrigger != 0 && o.L0TableNumCompactionTrigger == 0 {
+		o.L0TableNumCompactionTrigger = t.L0TableNumCompactionTrigger
+	}
+}
+
+func verifTuneCompactor(c *sst.Compactor) {
+	v, ok := verifhook.Tuning("dkv")
+	if !ok {
+		return
+	}
+	t := v.(VerifDBTuning)
+	if t.MaxSizeAmplificationPercent != 0 {
+		c.MaxSizeAmplificationPercent = t.MaxSizeAmplificationPercent
+	}
+	if t.SmallestLevelSize != 0 {
+		c.SmallestLevelSize = t.SmallestLevelSize
+	}
+	if t.LevelSizeMultiplier != 0 {
+		c.LevelSizeMultiplier = t.LevelSizeMultiplier
+	}
+}
